@@ -36,7 +36,7 @@ FULL_PATH_EVERY = 64
 # (queue length) -> (four-valued up to this many queue commits,
 #                    two-valued (green / rotating not-green) up to this many)
 SLICES = {
-    'quick': {1: (99, 0), 2: (5, 99), 3: (0, 99), 4: (0, 6)},
+    'quick': {1: (99, 0), 2: (5, 99), 3: (0, 99), 4: (0, 7)},
     'thorough': {1: (99, 0), 2: (99, 0), 3: (5, 99), 4: (0, 9)},
 }
 SAMPLE_GRAPHS = {'quick': 1600, 'thorough': 6400}      # x 16 status tables
@@ -53,8 +53,9 @@ RULE = (
     'statuses: quick tier = all 4^c tables for 1 PR and for 2 PRs with c<=5 '
     'queue commits, all 2^c green/not-green tables (the not-green value '
     'rotating over FAILED/INPROGRESS/NOTSTARTED by position and table) for '
-    'every 2- and 3-PR queue and for 4-PR queues with c<=6, plus a seeded '
-    'sample (1600 graphs x 16 four-valued tables) of 4-PR queues with c>=7; '
+    'every 2- and 3-PR queue and for 4-PR queues with c<=7 (sized for 60 s '
+    'on 16 cores), plus a seeded sample (1600 graphs x 16 four-valued '
+    'tables) of 4-PR queues with c>=8; '
     'thorough tier = all 4^c for 1 and 2 PRs and for 3 PRs with c<=5, all '
     '2^c for every 3-PR queue and 4-PR queues with c<=9, plus a seeded '
     'sample (6400 graphs x 16 tables) of 4-PR queues with c>=10; every graph '
@@ -340,6 +341,27 @@ def harness_paths(kinds):
     return out
 
 
+def per_path_prefixes(g, members):
+    """Diagnosis only (never used to decide a verdict): for each merge path,
+    the longest prefix of the queue whose tips are green on the versions of
+    THAT path alone."""
+    out = []
+    for path in harness_paths(g.kinds):
+        best = 0
+        for k in range(len(members), 0, -1):
+            newest = {}
+            for pos in members[:k]:
+                for b in g.targets[pos]:
+                    if b in path:
+                        newest[b] = pos
+            if all(g.status[(pos, b)] == 'SUCCESSFUL'
+                   for b, pos in newest.items()):
+                best = k
+                break
+        out.append(best)
+    return out
+
+
 def classify(g, force, exp_sel, exp_moves, detail, got_sel, got_moves):
     """Stable key for the kind of disagreement."""
     if force:
@@ -354,22 +376,25 @@ def classify(g, force, exp_sel, exp_moves, detail, got_sel, got_moves):
             continue
         if len(mine) == k:
             continue
+        if len(mine) < k:
+            parts.append('%s-stops-short-of-green-prefix' % where)
+            continue
+        # a prefix longer than the statement allows: some destination lands
+        # on a commit that is not SUCCESSFUL
         if qid[0] == 'main':
             tv = set()
             for p in members:
                 tv.update(g.targets[p])
             covered = any(tv <= path for path in harness_paths(kinds))
             nstab = sum(1 for b in tv if kinds[b] == 'stabilization')
-            shape = ('one-merge-path-sees-all-queues' if covered else
-                     'no-merge-path-sees-all-queues-%d-stabilization-queue%s'
-                     % (nstab, '' if nstab == 1 else 's'))
-        else:
-            shape = 'single-branch'
-        if len(mine) > k:
-            parts.append('%s-selects-prefix-with-non-green-tip/%s'
-                         % (where, shape))
-        else:
-            parts.append('%s-stops-short-of-green-prefix/%s' % (where, shape))
+            if not covered and len(mine) == min(per_path_prefixes(g, members)):
+                parts.append(
+                    'per-merge-path-minimum-selects-non-green-tip/%s' % (
+                        'one-stabilization-queue-above-the-oldest-queued-'
+                        'version' if nstab == 1 else
+                        'several-stabilization-queues'))
+                continue
+        parts.append('%s-selects-prefix-with-non-green-tip' % where)
     if parts:
         return '+'.join(parts)
     if set(got_sel) != exp_sel:
@@ -493,9 +518,16 @@ def run_cell(g, tab, force, acc, full=False, sampled=False, label=None):
                             got_moves)
             if bad == 'merge_queues':
                 mech = 'merge_queues-' + mech
-        acc.violation(mech, describe(g, force, tab, exp_sel, exp_moves_pos,
-                                     got_ids, got_moves),
-                      witness(g, tab, force))
+        desc = describe(g, force, tab, exp_sel, exp_moves_pos, got_ids,
+                        got_moves)
+        if ('main',) in detail and not force:
+            members = detail[('main',)][0]
+            desc += ('; longest prefix that is green on the versions of one '
+                     'merge path alone: %s' % [
+                         (sorted(g.name_of[b] for b in path), k)
+                         for path, k in zip(harness_paths(g.kinds),
+                                            per_path_prefixes(g, members))])
+        acc.violation(mech, desc, witness(g, tab, force))
     elif rejected:
         acc.count('validate_rejected_but_nothing_expected')
     elif label and (acc.evals % 9973 == 1 or len(acc.samples) < 2):
